@@ -114,6 +114,8 @@ theorem exec_safe {P : Nat → Prop} {β : Type} (c : Call β) (s : AbsState) (n
   | now => exact ⟨hs, Frame.refl _ _⟩
   | getServer a => exact ⟨hs, Frame.refl _ _⟩
   | filterServers fs => exact ⟨hs, Frame.refl _ _⟩
+  | scanServers fs => exact ⟨hs, Frame.refl _ _⟩
+  | fetchServers as => exact ⟨hs, Frame.refl _ _⟩
   | insGet id => exact ⟨hs, Frame.refl _ _⟩
   | insClear b => exact absurd hc (by simp [CallSafe])
   | enqueue p a b =>
